@@ -715,10 +715,19 @@ impl<'de, R: Read<'de>> Parser<R> {
                 }
             }
             Token::Quotation(name) => {
+                self.remaining_depth -= 1;
+                if self.remaining_depth == 0 {
+                    self.remaining_depth += 1;
+                    return Err(self.peek_error(ErrorCode::RecursionLimitExceeded));
+                }
+
+                let ret = self.next_value();
+
+                self.remaining_depth += 1;
+
                 // TODO: more specific error
-                let datum = self
-                    .next_value()?
-                    .ok_or_else(|| self.peek_error(ErrorCode::EofWhileParsingList))?;
+                let datum =
+                    ret?.ok_or_else(|| self.peek_error(ErrorCode::EofWhileParsingList))?;
                 Value::list(vec![Value::symbol(name), datum])
             }
         };
@@ -809,9 +818,19 @@ impl<'de, R: Read<'de>> Parser<R> {
             Token::Quotation(name) => {
                 // TODO: more specific error
                 let token_end = self.read.position();
-                let quoted = self
-                    .next_datum()?
-                    .ok_or_else(|| self.peek_error(ErrorCode::EofWhileParsingList))?;
+
+                self.remaining_depth -= 1;
+                if self.remaining_depth == 0 {
+                    self.remaining_depth += 1;
+                    return Err(self.peek_error(ErrorCode::RecursionLimitExceeded));
+                }
+
+                let ret = self.next_datum();
+
+                self.remaining_depth += 1;
+
+                let quoted =
+                    ret?.ok_or_else(|| self.peek_error(ErrorCode::EofWhileParsingList))?;
                 Datum::quotation(name, quoted, Span::new(start, token_end))
             }
         };
